@@ -124,9 +124,9 @@ func init() {
 		Assumptions: []string{"pattern syntax and single-pattern matching are those of moby/patternmatcher (same library on both sides, fresh matcher per decision in the reference)", "map functions are stateless"},
 		Cases: func(tier string) int {
 			if tier == "thorough" {
-				return 120000
+				return 1000000
 			}
-			return 6000
+			return 20000
 		},
 		Batch:         400,
 		MinNontrivial: func(tier string) int { return 1000 },
